@@ -260,23 +260,23 @@ func finish(spec *propSpec, tier string, seed int, rr *runResult, ff *FindingsFi
 // coverage explanation so that the evidence names everything that was evaluated.
 var laterRules = map[string]string{
 	"C01": " ALSO DECIDED: tolerance-two-sided (a float difference compared with a small positive tolerance goes through math.Abs or is bounded on both sides — the sine pacer's convergence test); float-precision (no run-time integer quotient feeds a float64 schedule formula); mul-wrap and overflow-guard follow single-site helpers of Pace; divisor facts established by the caller hold inside such helpers. overflow-guard also covers products computed in time.Duration.",
-	"C02": " ALSO DECIDED: the sequence counter is identified structurally (the field loaded into Result.Seq) and must belong to the per-attack object; function-literal workers and deferred named shutdown helpers are recognised.",
+	"C02": " ALSO DECIDED: the sequence counter is identified structurally (the field loaded into Result.Seq) and must belong to the per-attack object; function-literal workers and deferred named shutdown helpers are recognised. dependencies (the rules of C01 that no shipped pacer method can panic and the lockset rule of C15 that the targeters release their lock on every path are obligations here too: a panicking pacer or a targeter returning with its mutex held prevents the clean end).",
 	"C03": " ALSO DECIDED: ticks-unbuffered (the tick channel is a rendezvous); growth-condition (before the non-blocking offer the only extra branch condition is the spare-capacity test). refused-offer-must-spawn (after a refused non-blocking offer the blocking offer is reached only past a worker spawn, except on the pool-is-full edge of a counter-against-maximum test: a spawn inside a loop that may run zero times starts nobody).",
 	"C04": " ALSO DECIDED: ticks-unbuffered; the start instant is written once in Attack from time.Now(); duration test in either polarity; three-clause for loops.",
-	"C06": " ALSO DECIDED: request-untouched (hit assigns no field of the *http.Request except TransferEncoding; ContentLength is what bytes-out is read from).",
+	"C06": " ALSO DECIDED: request-untouched (hit assigns no field of the *http.Request except TransferEncoding; ContentLength is what bytes-out is read from). request-length (Target.Request stores neither ContentLength nor Body after http.NewRequest: bytes-out is read from ContentLength).",
 	"C07": " ALSO DECIDED: complete-lines (shared with C09: the JSON decoder parses copied, newline-terminated lines of any length; bufio.Scanner framing is rejected); the header wire-format helper is recognised by effect, also when written in place. eof-unwrapped (the gob, CSV and JSON decoders never pass an error that may be io.EOF to an error-building call unless io.EOF was excluded first: consumers compare with io.EOF).",
-	"C08": " ALSO DECIDED: output-truncated (os.Create or O_TRUNC); codec-table agreement of C07 and the complete-line rule of C09 (transcoding chains); table form of the -to selection. lexer-options (only the input of the jlexer.Lexer is set: UseMultipleErrors would turn type errors into non-fatal ones that Error() does not report). decode-sites (any further function of package main that calls a Decoder is held to the decode-loop rule).",
-	"C09": " ALSO DECIDED: sniff-replay of DecoderFor (shared with C08): the commands reach every decoder through it. decode-sites (any further function of package main that calls a Decoder is held to the decode-loop rule).",
-	"C10": " ALSO DECIDED: first-sample-marker (the field whose nil-ness Add uses as 'first sample' is written on the shared value only from Add); builtin min/max accumulator form; single-site helpers of Add are analysed as inlined. a min/max update written as a first-sample arm and a comparison arm on the two edges of one test is judged as one update. per-second-guard (every division by elapsed seconds reachable from Close is decided by Duration > 0 alone, in its own function or at every call site of a helper).",
+	"C08": " ALSO DECIDED: output-truncated (os.Create or O_TRUNC); codec-table agreement of C07 and the complete-line rule of C09 (transcoding chains); table form of the -to selection. lexer-options (only the input of the jlexer.Lexer is set: UseMultipleErrors would turn type errors into non-fatal ones that Error() does not report). decode-sites (any further function of package main that calls a Decoder is held to the decode-loop rule). one-decoder-per-file also requires that DecoderFor is given the opened input itself, that no input is skipped, and that the decoder kept is the detected one on every path.",
+	"C09": " ALSO DECIDED: sniff-replay of DecoderFor (shared with C08): the commands reach every decoder through it. decode-sites (any further function of package main that calls a Decoder is held to the decode-loop rule). one-decoder-per-file (DecoderFor is given the opened input itself: no reader in between completes a cut record).",
+	"C10": " ALSO DECIDED: first-sample-marker (the field whose nil-ness Add uses as 'first sample' is written on the shared value only from Add); builtin min/max accumulator form; single-site helpers of Add are analysed as inlined. a min/max update written as a first-sample arm and a comparison arm on the two edges of one test is judged as one update. per-second-guard (every division by elapsed seconds reachable from Close is decided by Duration > 0 alone, in its own function or at every call site of a helper). end-definition (Result.End is Timestamp.Add(Latency) on every path).",
 	"C11": " ALSO DECIDED: the t-digest adapter itself (not a wrapper around it) is what init installs. split-conversion (where the HDR reporter splits a duration into d/U and d%U the remainder is divided by the same U; a delegating constructor is followed).",
 	"C12": " ALSO DECIDED: bucket fields are trimmed of all white space before time.ParseDuration; bounds come from ParseDuration unchanged (wrapper recognised); comparison polarity is tracked, the scan may live in a single-site helper. render-owned (MarshalJSON's result is not backed by a field of the histogram). pristine-receiver (the report command never stores into Histogram.Buckets itself: UnmarshalText appends to its receiver).",
-	"C13": " ALSO DECIDED: the round-robin decoder decodes straight into the caller's Result; complete-lines and sniff-replay (records of any length, no fixed detection window). decode-sites (any further function of package main that calls a Decoder — a helper for -every, a background reader — is held to the decode-loop rule, so end-of-input cannot overtake queued records).",
-	"C14": " ALSO DECIDED: header-case scope includes the JSON target codec and Target.Equal; clone helpers must clip the capacity of values carved from one array; variadic merge helpers are followed. body-ends-block (once a call has stored the target's own body it consumes no further line it has not peeked at); lookahead-skips-comments (the request-line test on the looked-ahead line is made on a line known not to be a comment, or is repeated after every comment skipped inside the block — finding F9); exhaustion in path form (ErrNoTargets test in either polarity, inside or after the loop).",
+	"C13": " ALSO DECIDED: the round-robin decoder decodes straight into the caller's Result; complete-lines and sniff-replay (records of any length, no fixed detection window). decode-sites (any further function of package main that calls a Decoder — a helper for -every, a background reader — is held to the decode-loop rule, so end-of-input cannot overtake queued records). one-decoder-per-file also requires that no input is skipped and that the decoder kept is the detected one on every path.",
+	"C14": " ALSO DECIDED: header-case scope includes the JSON target codec and Target.Equal; clone helpers must clip the capacity of values carved from one array; variadic merge helpers are followed. body-ends-block (once a call has stored the target's own body it consumes no further line it has not peeked at); lookahead-skips-comments (the request-line test on the looked-ahead line is made on a line known not to be a comment, or is repeated after every comment skipped inside the block — finding F9); exhaustion in path form (ErrNoTargets test in either polarity, inside or after the loop). header-values-fresh (the slice stored under a header name by the JSON target decoder is built within the iteration of that name).",
 	"C15": " ALSO DECIDED: source-stays-open (no Close in the targeters: every caller after exhaustion gets ErrNoTargets); inner targeter literal under a thin locked wrapper; self-locking helper types. one-critical-section (the lock is taken once per call: no second acquisition reachable from the first, none in a loop, counting the local function literals the targeter calls that lock by themselves). a shallow maps.Copy / maps.Clone of the default headers is itself an aliasing sink.",
-	"C16": " ALSO DECIDED: scanner-split (a custom bufio.SplitFunc advances with every token); search-result, copy() and tested i+k bounds. a lookahead wrapper (Peek) counts as consuming when every path through it consumes, its failure returns the zero value and the loop repeats only under a test the zero value fails. library Must… calls with run-time arguments are panic sites.",
+	"C16": " ALSO DECIDED: scanner-split (a custom bufio.SplitFunc advances with every token); search-result, copy() and tested i+k bounds. a lookahead wrapper (Peek) counts as consuming when every path through it consumes, its failure returns the zero value and the loop repeats only under a test the zero value fails. library Must… calls with run-time arguments are panic sites. The bodies of main.report and main.decoder (and their single-site helpers) are in the panic-site scope.",
 	"C17": " ALSO DECIDED: the reorder buffer is never reassigned after construction; release loop and row construction may live in single-site helpers. row-blank (every block of float64 cells a row is taken from is filled with NaN over its whole length before a row from it is appended; rows built by helpers or carved from a backing array are followed). iter-fresh (every batch the series iterator returns is backed by an array allocated in that call: Downsample still holds the previous batch). threshold-provenance (Plot.threshold is stored only from an option parameter as given: 0 keeps meaning no downsampling).",
 	"C18": " ALSO DECIDED: dns-refresh (the refresh goroutine calls Resolver.Refresh(true) inside its ticker loop: no cache entry outlives a refresh interval unresolved); the connect-to mapping is consulted once per dial, not in a loop (a replacement that is itself a source address is not translated again); bound-method dial closures and value-form previous dialers are followed. both-families (inside DNSCaching the lookup backend of the dnscache.Resolver is never replaced and no family-pinned network name is used).",
-	"C19": " ALSO DECIDED: special values store the parser's result through conversions only; validation in predicate or single-site helpers is followed by path exploration. strings.Cut form of the rate syntax, concatenated String form, ParseDuration through a returning helper, strings.Join over a constant re-slice of the parts. special-reaches-option (DNSCaching, MaxBody and Redirects never reassign the parameter carrying a special value before interpreting it).",
+	"C19": " ALSO DECIDED: special values store the parser's result through conversions only; validation in predicate or single-site helpers is followed by path exploration. strings.Cut form of the rate syntax, concatenated String form, ParseDuration through a returning helper, strings.Join over a constant re-slice of the parts. special-reaches-option (DNSCaching, MaxBody and Redirects never reassign the parameter carrying a special value before interpreting it). Every listed resolver address is kept (no iteration of normalizeAddrs skips to the next address).",
 	"C20": " ALSO DECIDED: metric-opts (vectors are created with name, help and buckets only). register-error (no failure of Registerer.Register is dropped: on every path from the error edge the error value is wrapped, joined, stored or returned before the loop goes on or Register returns).",
 }
 
